@@ -457,15 +457,20 @@ class CallMixin:
         # caller's ghost of the same name if there is one, else with an arbitrary fresh value
         cur = self.reg.contracts.get(self.verifying)
         gbind = (getattr(cur, "ghost_bind", None) or {}).get(c.qualname, {}) if cur is not None else {}
+        extra_instances = []      # further instances of universal ghosts: the ensures clauses are assumed for each
         for gname, gkind in c.ghost.items():
             if gname in gbind:
                 # the caller's contract names the instance of the callee's universal ghost to use at its call sites:
-                # a spec expression over the caller's locals/ghosts (any instance of a universal is sound)
+                # a spec expression over the caller's locals/ghosts (any instance of a universal is sound); a list of
+                # expressions gives several instances (the postconditions are assumed for every one of them)
                 names = dict(self.entry_names)
                 names.update(st.locals)
                 names.update(st.ghost)
+                exprs = gbind[gname] if isinstance(gbind[gname], (list, tuple)) else [gbind[gname]]
                 try:
-                    bound[gname] = self.coerce(st, self.spec_eval(SpecEnv(st, names), gbind[gname]), gkind)
+                    vals = [self.coerce(st, self.spec_eval(SpecEnv(st, names), e_), gkind) for e_ in exprs]
+                    bound[gname] = vals[0]
+                    extra_instances += [(gname, v_) for v_ in vals[1:]]
                     continue
                 except RuntimeError:
                     pass            # the expression mentions a local that is unbound here: fall through
@@ -533,6 +538,11 @@ class CallMixin:
         self.apply_hints(sn, c.hints, env2)
         for cl in list(c.ensures) + list(c.ghost_ensures):
             sn = sn.assume(self.spec_bool(SpecEnv(sn, names, pre_st, dict(bound)), cl.expr))
+        for gname, gval in extra_instances:
+            n2, b2 = dict(names), dict(bound)
+            n2[gname] = b2[gname] = gval
+            for cl in list(c.ensures) + list(c.ghost_ensures):
+                sn = sn.assume(self.spec_bool(SpecEnv(sn, n2, pre_st, b2), cl.expr))
         outs += k(sn, res)
         return outs
 
@@ -564,6 +574,11 @@ class CallMixin:
         if loc.startswith("*"):
             cls, fld = loc[1:].rsplit(".", 1)
             return [("field*", cls, fld, None)]
+        if loc == "*open":
+            return [("open*", None, None, None)]
+        if loc.startswith("open:"):
+            v = self.unwrap(self.spec_eval(env, loc[5:]))
+            return [("open", v, None, None)]
         if loc.startswith("dyn:"):
             v = self.unwrap(self.spec_eval(env, loc[4:]))
             out = []
@@ -635,6 +650,10 @@ class CallMixin:
                         st.heap[key] = self.arbitrary(arr(INT, arr(ks, so)), "hvalldict")
                 elif kind == "field":
                     st = self.havoc_field(st, item[1].t, item[1].cls, item[2])
+                elif kind == "open*":
+                    st = self.open_havoc(st)
+                elif kind == "open":
+                    st = self.open_havoc(st, item[1].t)
                 elif kind in ("list", "deque"):
                     c = item[1]
                     key, sort = self._seq_key(c.elem, c)
